@@ -15,6 +15,7 @@ scaling, clipping) is what the model computes and what is compared.
 from __future__ import annotations
 
 import contextlib
+import io
 import itertools
 import json
 import math
@@ -24,8 +25,10 @@ from fractions import Fraction
 from pathlib import Path
 
 import numpy as np
+import pandas as pd
 
 import common
+import pipeline as P
 from common import Atom, a_int, a_rat, deep, dec, req
 
 RULE = (
@@ -142,6 +145,21 @@ def recording(stub_kernel=None, stub_pi0=None):
     finally:
         for mod, name, old in reversed(saved):
             setattr(mod, name, old)
+
+
+def same_kernel_record(a, b):
+    """did the numeric kernels return the same values in two runs (bit for bit, as multisets of arrays)?"""
+    def key(r):
+        out = []
+        for name in ("nnls", "kde_grid", "hist_grid", "pi0", "hist_peps"):
+            for x in getattr(r, name):
+                out.append((name, np.asarray(x, dtype=float).tobytes()))
+        for ts, ds, pe in r.qvality:
+            out.append(("qvality", np.sort(np.asarray(ts, dtype=float)).tobytes(), np.sort(np.asarray(ds, dtype=float)).tobytes(),
+                        np.asarray(pe, dtype=float).tobytes()))
+        return sorted(out)
+
+    return key(a) == key(b)
 
 
 def run_impl(alg, s, t, form="positional", **kw):
@@ -543,7 +561,24 @@ def eval_one(chk, case, alg, perm, pending, stub=None):
             chk.count("equivariance_checked", alg)
             if np.array_equal(out[p], out2):
                 chk.count("equivariance_bit_exact", alg)
-            if not close(out[p], out2):
+            if not close(out[p], out2) and not stub and not same_kernel_record(rec, rec2):
+                # The numeric kernel itself answered differently for the permuted input (floating-point summation
+                # order inside gaussian_kde / nnls / the spline; typically a tail bin where both densities vanish):
+                # the hypothesis "the kernel depends on the multiset of (score, label) only" fails for this input, so
+                # f(perm x) = perm f(x) cannot be expected. Alignment of the permuted run is then checked against the
+                # model fed with ITS OWN kernel record (below), and the event is tallied.
+                chk.count("kernel_order_sensitive", alg)
+                chk.extra.setdefault("kernel_hypothesis_violations", [])
+                if len(chk.extra["kernel_hypothesis_violations"]) < 20:
+                    chk.extra["kernel_hypothesis_violations"].append(
+                        dict(alg=alg, n=len(s), what="kernel output differs between two orders of the same input"))
+                try:
+                    pending.append((alg, dict(case, scores=s[p].tolist(), labels=t[p].tolist(), perm=None), s[p], out2,
+                                    model_request(alg, s[p], t[p], rec2), []))
+                except Exception as e:  # noqa: BLE001
+                    chk.corr_break(alg, dict(case=jsonable(case, alg), error="no kernel record (permuted run): " + repr(e)[:200]))
+                    return
+            elif not close(out[p], out2):
                 k = int(np.argmax(np.where(np.isfinite(out[p] - out2), np.abs(out[p] - out2), np.inf)))
                 chk.spec_violation(
                     f"equivariance:{alg}",
@@ -1411,6 +1446,104 @@ def minimise(chk):
                 break
 
 
+def sqlite_cases(chk, n_cases):
+    """the SQLite result database (assign_confidence(sqlite_path=...)): the PSM-level and peptide-level tables must
+    carry, for every row, the same q-value, score and PEP as the text result files of the same analysis, and the PEP
+    of a row is the estimator's value for that row's own score (stub estimator g(score) = 1/(1+2^score))"""
+    import importlib
+    import shutil
+    import sqlite3
+    import tempfile
+
+    import mokapot
+
+    conf = importlib.import_module("mokapot.confidence")
+    for _ in range(n_cases):
+        rng = chk.rng
+        n = rng.choice([30, 60, 120])
+        seed = rng.randrange(1 << 30)
+        r = np.random.default_rng(seed)
+        label = np.where(r.random(n) < 0.5, 1, -1)
+        score = np.array([float(rng.randint(-40, 40)) / 4 for _ in range(n)])      # exact in text and REAL
+        npep = max(2, n // 2)
+        df = pd.DataFrame({"SpecId": np.arange(1, n + 1), "Label": label, "ScanNr": np.arange(1, n + 1),
+                           "ExpMass": 1000 + np.arange(n), "feat": score, "feat2": np.arange(n) % 5,
+                           "Peptide": 10001 + (np.arange(n) * 7) % npep, "Proteins": ["P%d" % i for i in range(n)]})
+        chunk = rng.choice([None, 7, 25])
+        g = lambda s: 1.0 / (1.0 + 2.0 ** np.asarray(s, dtype=float))   # noqa: E731
+        old = conf.peps_from_scores
+        conf.peps_from_scores = lambda scores, targets, *a, **k: g(scores)
+        d = Path(tempfile.mkdtemp(prefix="c06sql"))
+        try:
+            pin = d / "a.pin"
+            df.to_csv(pin, sep="\t", index=False)
+            out = {}
+            for kind in ("txt", "db"):
+                dd = d / kind
+                dd.mkdir()
+                kw = {}
+                if kind == "db":
+                    con = sqlite3.connect(dd / "r.db")
+                    con.execute("CREATE TABLE CANDIDATE (CANDIDATE_ID INTEGER NOT NULL, PSM_FDR REAL, SVM_SCORE REAL, "
+                                "POSTERIOR_ERROR_PROBABILITY REAL, PRIMARY KEY (CANDIDATE_ID));")
+                    con.execute("CREATE TABLE PEPTIDE_VALIDATION (PEPTIDE_ID INTEGER NOT NULL, FDR REAL, PEP REAL, "
+                                "SVM_SCORE REAL, PRIMARY KEY (PEPTIDE_ID))")
+                    con.executemany("INSERT INTO CANDIDATE (CANDIDATE_ID) VALUES(?)", [(int(i),) for i in df["SpecId"]])
+                    con.commit(); con.close()
+                    kw["sqlite_path"] = dd / "r.db"
+                ctx = P.chunk_sizes(confidence=chunk) if chunk else contextlib.nullcontext()
+                with ctx, contextlib.redirect_stdout(io.StringIO()), contextlib.redirect_stderr(io.StringIO()):
+                    ds = mokapot.read_pin([pin], max_workers=1)
+                    mokapot.assign_confidence(ds, max_workers=1, scores=[score.copy()], dest_dir=dd, prefixes=[None],
+                                              decoys=True, **kw)
+                out[kind] = dd
+            txt_psm = pd.concat([P.read_result(out["txt"] / "targets.psms"), P.read_result(out["txt"] / "decoys.psms")])
+            txt_pep = pd.concat([P.read_result(out["txt"] / "targets.peptides"),
+                                 P.read_result(out["txt"] / "decoys.peptides")])
+            con = sqlite3.connect(out["db"] / "r.db")
+            cand = pd.read_sql("SELECT * FROM CANDIDATE", con)
+            pepv = pd.read_sql("SELECT * FROM PEPTIDE_VALIDATION", con)
+            con.close()
+        except Exception as e:  # noqa: BLE001
+            chk.reject("sqlite-run-failed:" + type(e).__name__)
+            continue
+        finally:
+            conf.peps_from_scores = old
+            shutil.rmtree(d, ignore_errors=True)
+        chk.case(None, (seed, "sqlite"), sample=dict(kind="sqlite", n=n, chunk=chunk, psm_rows=len(cand)))
+        chk.count("sqlite-chunk", str(chunk))
+        clause = None
+        t = {int(r_["PSMId"]): (float(r_["q-value"]), float(r_["score"]), float(r_["posterior_error_prob"]))
+             for r_ in txt_psm.to_dict("records")}
+        for r_ in cand.to_dict("records"):
+            i = int(r_["CANDIDATE_ID"])
+            if i not in t:
+                if r_["PSM_FDR"] is not None and r_["PSM_FDR"] == r_["PSM_FDR"]:
+                    clause = f"PSM {i} has values in the database but is in no PSM-level result file"
+                continue
+            got = (r_["PSM_FDR"], r_["SVM_SCORE"], r_["POSTERIOR_ERROR_PROBABILITY"])
+            if any(x is None or x != x for x in got):
+                clause = f"PSM {i}: missing value in CANDIDATE {got}"
+            elif tuple(float(x) for x in got) != t[i]:
+                clause = (f"PSM {i}: database (q, score, PEP) = {got} but the text result files have {t[i]}")
+            elif float(got[2]) != float(g(got[1])):
+                clause = f"PSM {i}: PEP {got[2]} is not the estimator's value for its own score {got[1]}"
+            if clause:
+                break
+        if clause is None:
+            tp = {int(r_["peptide"]): (float(r_["q-value"]), float(r_["posterior_error_prob"]), float(r_["score"]))
+                  for r_ in txt_pep.to_dict("records")}
+            dbp = {int(r_["PEPTIDE_ID"]): (float(r_["FDR"]), float(r_["PEP"]), float(r_["SVM_SCORE"]))
+                   for r_ in pepv.to_dict("records")}
+            if dbp != tp:
+                bad = sorted(k for k in set(dbp) | set(tp) if dbp.get(k) != tp.get(k))[:3]
+                clause = f"peptide level: database rows differ from the text result files for peptides {bad}: " \
+                         f"{[dbp.get(k) for k in bad]} vs {[tp.get(k) for k in bad]}"
+        if clause:
+            chk.spec_violation("sqlite-result-alignment", dict(seed=seed, n=n, chunk=chunk, clause=clause))
+            return
+
+
 def main(chk, args):
     build = common.build_and_audit("C06")
     if not build.driver_ok:
@@ -1424,6 +1557,7 @@ def main(chk, args):
         dispatch_cases(chk, 10)
         sweep_writer(chk, 4, 40)
         result_files_ext(chk, 16, ["hist_nnls", "hist_nnls", "kde_nnls"])
+        sqlite_cases(chk, 2)
     else:
         sweep_primitives(chk, full=True)
         run_generated(chk, 60, 600, 3000)
@@ -1432,6 +1566,7 @@ def main(chk, args):
         dispatch_cases(chk, 300)
         sweep_writer(chk, 6, 600)
         result_files_ext(chk, 160, ["hist_nnls"] * 14 + ["kde_nnls"] * 6 + ["qvality"] * 4)
+        sqlite_cases(chk, 20)
     minimise(chk)
     lc = common.leanchecker("C06") if chk.tier == "thorough" else None
     if lc is not None:   # the second property module (Props/C06File.lean) is re-checked as well
@@ -1464,7 +1599,7 @@ def main(chk, args):
         "peps_from_scores and Confidence.write_to_disk; alignment is checked by PSMId with exact float equality "
         "(text files parsed with float_precision='round_trip'); the level loop is reached with desc=True only "
         "(assign_confidence negates lower-is-better scores itself), the desc=False branch of the model is covered "
-        "by the theorem and the mutant only; the protein level and the SQLite writer are not driven here",
+        "by the theorem and the mutant only; the SQLite writer is driven by `sqlite_cases` (database rows compared with the text result files of the same analysis, stub estimator); the protein level is not driven here",
     ]
     chk.finish(build, RULE, search=search, lc=lc,
                trusted_extra=["triqler.qvality, scipy.stats.gaussian_kde, scipy.optimize.nnls, np.histogram, "
